@@ -31,6 +31,13 @@ def shaped(rng):
 PID = "C05"
 
 
+def _shared_condition(rng):
+    kind = str(rng.choice(["FitnessEvalLimitReached", "FitnessEvalLimitReached", "SingularProblemEvalLimitReached", "NoActiveNonrootDemes"]))
+    gsc = {"kind": kind, "limit": int(rng.integers(80, 400)), "weights": str(rng.choice(["root", "equal", "list"]))} if "Limit" in kind else {"kind": kind, "n": int(rng.integers(0, 2))}
+    lsc = {"kind": "MetaepochLimit", "limit": 2}
+    return {"gsc": gsc, "prior_tree": True, "prior_gsc": True, "nlev": int(rng.choice([2, 2, 3])), "lsc": {1: lsc, 2: lsc}, "cutoff": None}
+
+
 def run(ctx):
     return [
         refine.refine_batch(ctx, ctx.size(120, 1500), force=shaped, pid=PID, name="trace-refinement(Tree.step vs DemeTree.run)"),
@@ -38,6 +45,10 @@ def run(ctx):
         runs.monitor_batch(ctx, PID, ctx.size(250, 3000), force=shaped),
         # an objective with NaN holes (NaN is a legal value, ordered as worst): the property does not depend on it
         runs.nan_monitor_batch(ctx, PID, ctx.size(30, 300), salt=57),
+        # ONE stop-condition object consulted by two trees of a process (the earlier tree of `prior_tree` gets the
+        # very object): an evaluation-limit condition answers for the tree it is asked about
+        refine.refine_batch(ctx, ctx.size(30, 300), salt=67, force=_shared_condition, pid=PID, name="trace-refinement(one stop-condition object, two trees)"),
+        runs.monitor_batch(ctx, PID, ctx.size(40, 400), salt=69, name="traced-runs-monitor-C05(one stop-condition object, two trees)", force=_shared_condition),
     ]
 
 
